@@ -61,6 +61,12 @@ func alphabet(mode string) []opDesc {
 	}
 	for c := 0; c < 2; c++ {
 		for _, f := range fs {
+			if strings.HasSuffix(f, "#") {
+				// the MQTT-native spelling is normalised by the SUBSCRIBE handler only; an UNSUBSCRIBE with it does not
+				// parse, is answered with an error and changes nothing (consistent with the statement, if unhelpful),
+				// so it is not offered as a way to end the subscription
+				continue
+			}
 			ops = append(ops, opDesc{Kind: "unsub", Client: c, Filter: f})
 		}
 	}
